@@ -130,6 +130,17 @@ func runC09Proc(e *Env) (int, error) {
 		g := genC08(r)
 		// fault-free variant of the C08 world: plain files, pipe as sink
 		c := &C09ProcCase{World: g.World, Tool: g.Tool, Inv: g.Inv, Runs: []string{"1", "16", "1", "16", "4", "16"}}
+		if run%12 == 5 {
+			// a layer name near NAME_MAX (fits with its own extension, not with
+			// a longer one): which extension is probed first is up to the runtime
+			name := strings.Repeat(r.Pick("N", "m"), r.Range(243, 249)) + "." + r.Pick("yaml", "json", "yml")
+			doc := map[string]any{"long": true, "n": r.Intn(5)}
+			c = &C09ProcCase{Tool: "bkl", Runs: []string{"1", "16", "1", "16", "4", "16", "1", "16", "2", "8"}}
+			c.World.Dirs = []string{c08Dir}
+			c.World.Files = []procsim.File{{Path: c08Dir + "/" + name, Docs: treeDocs(doc)}}
+			c.Inv = procsim.Invocation{Kind: "stock", Args: []string{"-f", "json", name}, Cwd: c08Dir}
+			g = &C08Case{}
+		}
 		c.Inv.Injects, c.Inv.StdoutTo, c.Inv.Sched = nil, "", nil
 		if g.OutFile != "" || strings.Contains(strings.Join(g.Faults, " "), "symlink") {
 			return harness.RunResult{}
